@@ -13,6 +13,7 @@ import Driver.Fee
 import Driver.Mint
 import Driver.GovTally
 import Driver.Gauge
+import Driver.RS
 open Sunrise.Driver
 
 def evalLine (line : String) : String :=
@@ -42,6 +43,7 @@ def suites : List (String × (IO.FS.Stream → IO.FS.Stream → IO Unit)) :=
   [("mint", MintSuite.run)] ++
   [("govtally", GovTallySuite.run)] ++
   [("gauge", GaugeSuite.run)] ++
+  [("rs", RSSuite.run)] ++
   []
 
 def main : IO Unit := do
